@@ -104,7 +104,7 @@ Definition swif_base : N := 100.
 Inductive tok :=
 | TA (i sw : N) | TAF (i : N) | TU (i : N) | TV (i : N)
 | T4 (i : N) (a : N) | T6 (i : N) (a : N) | TP (i : N) (a : N)
-| TR (i cause : N) | TL (i : N) | TDEL (i : N) | TSP (i : N) | TSD (i : N) | TSPF (i : N) | TCKSERR | TSDF (i : N).
+| TR (i cause : N) | TL (i : N) | TDEL (i : N) | TSP (i : N) | TSD (i : N) | TSPF (i : N) | TCKSERR | TSDF (i : N) | TPROG | TLA (i : N) | T4Q (sw : N).
 
 (* ---- state ---- *)
 Record st := {
@@ -206,6 +206,10 @@ Inductive op :=
 | RelF (i : N)                                (* release whose checkpoint Delete returns a Store error *)
 | DelRetry (i : N) (ok : bool)                (* a background repetition of that Delete succeeds / fails again *)
 | GiveUp (i : N)                              (* the repetition stops after its last failed attempt *)
+| Bind4 (i lease : N) (o : option N)          (* IPoE handleAck: the DHCPv4 ACK of the provider binds (o = the allocator's
+                                                 answer for a session without IPv4 address) or renews the lease:
+                                                 State := bound, IPv4, LeaseTime, BoundAt := now, dataplane
+                                                 binding, then checkpointSession *)
 | Flip                                        (* Registry.SetAllocDirection flips (HA: this node lost the SRG election):
                                                  every pool rebuilds its free list; leases and reservations stay *)
 | Crash (preserved : bool) (fail : option N) (now : Z)    (* stop; new incarnation restores from the store *)
@@ -218,6 +222,7 @@ Inductive op :=
 Inductive out :=
 | ONew (a4 a6 apd : option N) (x4 x6 xpd : bool)   (* x* : that pool was asked and is exhausted *)
 | OSkip | OCk (t : N) (lg : list tok) | OCks (t : N) (lg : list tok) | ORel (lg : list tok) | ODone (retry : bool) | ONote (n : N) (lg : list tok)
+| OBind (a : option N) (t : N) (lg : list tok) | OBindX
 | OCrash (lg : list tok).
 
 Definition upd_store s v := {| store := v; pend := pend s; tick := tick s; applied := applied s; live := live s;
@@ -358,6 +363,42 @@ Definition do_cksf (c : cfg) (s : st) (i : N) : st * out :=
     ({| store := store s1; pend := pend s1; tick := t + 1; applied := applied s1;
         live := aput i r' (live s1); leases := leases s1; dp := dp s1; dpnext := dpnext s1;
         released := released s1; used := used s1; poison := poison s1; completed := completed s1; delpend := delpend s1 |}, OCks t [TSPF i; TCKSERR])
+  end.
+
+(* ---- IPoE DHCPv4 bind / renew (internal/ipoe/dhcpv4.go handleAck) ---- *)
+(* the in-memory update of handleAck; the image is stamped by the checkpoint that follows *)
+Definition set_bind4 (r : sess) (a lease : N) : sess :=
+  {| s_id := s_id r; s_bound := true; s_rel4 := false; s_appr := s_appr r; s_crea := s_crea r; s_v6b := s_v6b r;
+     s_v4 := Some a; s_v6 := s_v6 r; s_pd := s_pd r; s_l4 := lease; s_b4 := Some 0%Z; s_l6 := s_l6 r;
+     s_b6 := s_b6 r; s_stamp := None; s_swif := s_swif r |}.
+
+Definition upd_live (s : st) (i : N) (r : sess) (ls : list (N * N)) (d : list (N * dpe)) : st :=
+  {| store := store s; pend := pend s; tick := tick s; applied := applied s; live := aput i r (live s);
+     leases := ls; dp := d; dpnext := dpnext s; released := released s; used := used s; poison := poison s;
+     completed := completed s; delpend := delpend s |}.
+
+Definition do_bind4 (c : cfg) (s : st) (i lease : N) (o : option N) : option (st * out) :=
+  match c_proto c, aget i (live s) with
+  | IPoE, Some r =>
+    let go (a : N) (ls : list (N * N)) (fresh : bool) :=
+      let r2 := set_bind4 r a lease in
+      let hasdp := negb (s_swif r =? 0) in
+      let s1 := upd_live s i r2 ls (if hasdp then dp_prog i r2 (dp s) else dp s) in
+      let t := tick s1 in
+      Some (fst (do_ck s1 i),
+            OBind (if fresh then Some a else None) t
+              ((if hasdp then [if amem i (dp s) then T4 i a else T4Q (s_swif r); TPROG] else []) ++ [TLA i])) in
+    match s_v4 r with
+    | Some a => go a (leases s) false                               (* renew *)
+    | None =>
+      if alloc_ok c (leases s) 0 o then
+        match o with
+        | Some a => go a (aput (code 0 a) i (leases s)) true
+        | None => Some (s, OBindX)                                   (* pool exhausted: no ACK *)
+        end
+      else None
+    end
+  | _, _ => Some (s, OSkip)
   end.
 
 (* the lowest pending ticket of session i that can still take effect: under an ordering writer that is the write
@@ -520,6 +561,7 @@ Definition step (c : cfg) (s : st) (o : op) : option (st * out) :=
   | RelF i => Some (do_relf c s i)
   | DelRetry i ok => Some (do_delretry s i ok)
   | GiveUp i => Some (do_giveup c s i)
+  | Bind4 i l o => do_bind4 c s i l o
   | Flip => Some (s, ODone false)
   | Crash p f now => Some (do_crash c s p f now)
   | RelStop i pd p f now => Some (do_relstop c s i pd p f now)
